@@ -249,6 +249,10 @@ func customChecks(ctx *common.Ctx) {
 			// native are evaluated with path tracking ON, so an argument that navigates (.a, .[])
 			// leaves its path behind; the jq definition binds its arguments with `as` (tracking off)
 			pathCtx := strings.Contains(cx, "path(") || strings.Contains(cx, "paths(") || strings.Contains(cx, "del(")
+			// the left-hand side of an update operator is a path expression too
+			if i, j := strings.Index(cx, "CALL"), strings.Index(cx, "|="); i >= 0 && j > i {
+				pathCtx = true
+			}
 			navigates := false
 			for _, a := range as {
 				navigates = navigates || strings.Contains(a, ".a") || strings.Contains(a, ".b") || strings.Contains(a, ".[")
